@@ -53,6 +53,12 @@ REQUIRED_TRIEBUILD = ["KV.C03TrieBuild.trie_write_frame", "KV.C03TrieBuild.key_o
                       "KV.C03TrieBuild.example_end_to_end_pruned", "KV.C03TrieBuild.build_from_arpa", "KV.C03TrieBuild.k_enc", "KV.C03TrieBuild.k_unk",
                       "KV.C03TrieBuild.example_end_to_end_unk", "KV.C03TrieBuild.unk_class_deviates", "KV.C03TrieBuild.ex_enc", "KV.C03TrieBuild.example_end_to_end_closed", "KV.C03TrieBuild.example_end_to_end_null"]
 
+REQUIRED_TRIEG = ["KV.C03TrieG.ofTableG_represents", "KV.C03TrieG.quant_trie_refines", "KV.C03TrieG.plain_values_agree",
+                  "KV.C03TrieG.trie_build_represents_array", "KV.C03TrieG.trie_end_to_end_array", "KV.C03TrieG.train_qok",
+                  "KV.C03TrieG.train_exact", "KV.C03TrieG.quant_exact_agree", "KV.C03TrieG.trie_end_to_end_quant_exact",
+                  "KV.C03TrieG.k_shape_array", "KV.C03TrieG.k_shape_quant", "KV.C03TrieG.k_shape_quant_array",
+                  "KV.C03TrieG.example_end_to_end_array"]
+
 TYPE_NAMES = ["probing", "rest-probing", "trie", "quant-trie", "array-trie", "quant-array-trie"]
 
 
@@ -513,6 +519,56 @@ def triebuild_stream(ctx, pair, d, arpa_bytes, grams, order, tag):
     return out
 
 
+def triebuild4_stream(ctx, pair, d, arpa_bytes, grams, order, rng):
+    """All four trie classes byte for byte: the Lean builder (buildTableArpa) followed by Model/TrieG.ofTableG (ArrayBhiksha offset
+    tables + inline low bits; SeparatelyQuantize tables trained by QSpec.train with IEEE single arithmetic, codes in the records)
+    must produce the search region `build_binary` wrote for trie / quant-trie / array-trie / quant-array-trie, for random
+    -q / -b / -a settings."""
+    arpa = os.path.join(d, "g.arpa")
+    with open(arpa, "wb") as f:
+        f.write(arpa_bytes)
+    ab = rng.choice([0, 1, 2, 3, 5, 8, 64])
+    pb = rng.choice([2, 3, 5, 8, 12])
+    bb = rng.choice([2, 3, 4, 8, 12])
+    files = {ty: os.path.join(d, "g%d.bin" % ty) for ty in (2, 3, 4, 5)}
+    ops = []
+    for ty in (2, 3, 4, 5):
+        ops += ["build A%d %d %s %s after 0 1 %d %d %d %d" % (ty, ty, arpa, files[ty], MULTS[0], pb, bb, ab),
+                "free A%d" % ty if ty != 2 else "enumdump A2"]
+    ops += ["hdrparse " + files[2]]
+    rc, o, e = pair.harness(ops)
+    if rc != 0 or len(o) != len(ops):
+        return [("harness died while building the four trie files (rc=%s)" % rc, {"stderr": e[-1500:]})]
+    if not all(o[i].startswith("ok") for i in (0, 2, 4, 6)):
+        ctx.hist("triebuild4", "unloadable")
+        return []
+    ids = {}
+    for pr in o[1].split()[1:]:
+        i, hx = pr.split("=", 1)
+        ids[bytes.fromhex(hx).decode("utf-8", "replace")] = int(i)
+    counts = list(map(int, o[-1].split("counts=")[1].split(",")))
+    saw_unk = any(g[0] in ("<unk>", "<UNK>") for g in grams[1])
+    toks = gram_tokens(grams, order, ids, saw_unk)
+    search = ((88 + 20 + 8 * order - 1) // 8 + 1) * 8 + 8 + 8 * counts[0]
+    dops = []
+    for ty in (2, 3, 4, 5):
+        with open(files[ty], "rb") as f:
+            data = f.read()
+        dops.append("triebuildG %d %d %d %d %d %d %d %d %s %s" % ({2: 0, 3: 2, 4: 1, 5: 3}[ty], ab, pb, bb, order, counts[0], search,
+                                                                 f32_bits("-100"), " ".join(toks), data[search:].hex()))
+    rc2, o2, e2 = pair.driver(dops, timeout=900)
+    if rc2 != 0 or len(o2) != 4:
+        return [("driver failed in triebuildG", {"rc": rc2, "stderr": e2[-800:]})]
+    out = []
+    for ty, line in zip((2, 3, 4, 5), o2):
+        ctx.count(("triebuild4", ty, ab, pb, bb, hashlib.sha256(arpa_bytes).hexdigest()), nontrivial=len(toks) > 8)
+        ctx.hist("triebuild4", "%s:%s" % (TYPE_NAMES[ty], "equal" if line.endswith(" equal") else "diff"))
+        if not (line.startswith("tbg ok") and line.endswith(" equal")):
+            out.append(("the %s memory built by the Lean builder (ofTableG) differs from the search region build_binary wrote" % TYPE_NAMES[ty],
+                        {"driver": line[:300], "bhiksha_bits": ab, "prob_bits": pb, "backoff_bits": bb, "ngrams": len(toks)}))
+    return out
+
+
 def full_grid():
     g = []
     for name in ("m1", "a0", "m0", "a1"):
@@ -629,11 +685,12 @@ def run(ctx):
         flow.report_obligation_failures(ctx, problems, False)
         return
     problems, consts = flow.proof_phase(ctx, "C04", probe="probe_C04.cc", probe_flags=flags, required=REQUIRED,
-                                        targets=["Properties.C04", "Properties.C03Trie", "Properties.C03TrieBuild"], drivers=["drv_C04"])
+                                        targets=["Properties.C04", "Properties.C03Trie", "Properties.C03TrieBuild", "Properties.C03TrieG"],
+                                        drivers=["drv_C04"])
     # the trie clause of C03 (Properties/C03Trie.lean) is owned by this builder: audited here as well
     if not any("lake build failed" in p_ for p_ in problems):
         o1, d1, t1 = ctx.cov["obligations"], ctx.cov["discharged"], list(ctx.cov.get("theorems", []))
-        for pid2, req2 in (("C03Trie", REQUIRED_TRIE), ("C03TrieBuild", REQUIRED_TRIEBUILD)):
+        for pid2, req2 in (("C03Trie", REQUIRED_TRIE), ("C03TrieBuild", REQUIRED_TRIEBUILD), ("C03TrieG", REQUIRED_TRIEG)):
             problems += lean.audit(ctx, pid2, req2)
             o1, d1 = o1 + ctx.cov["obligations"], d1 + ctx.cov["discharged"]
             t1 = t1 + ctx.cov.get("theorems", [])
@@ -798,6 +855,21 @@ def run(ctx):
                     found = True
         if sample_file:
             found = header_mutation_stream(ctx, pair, d, sample_file) or found
+        # all four trie classes byte for byte (Model/TrieG.ofTableG); own generator so that the older streams keep their draws
+        import random as _random
+        rng4 = _random.Random(ctx.seed * 7919 + 4)
+        from checks import lmgen as _lmgen
+        cases4 = [(ab_, gr_, od_) for (ab_, gr_, od_, _k) in unk_class_cases(rng4, 1 if quick else 20)][-(2 if quick else 25):]
+        for _ in range(4 if quick else 60):
+            c4 = _lmgen.gen_case(rng4, size="small", force={"kind": rng4.choice(["pruned", "pruned", "corpus", "random"])})
+            cases4.append((c4.arpa, c4.grams, c4.meta["order"]))
+        for (ab_, gr_, od_) in cases4:
+            tb4 = triebuild4_stream(ctx, pair, os.path.join(d, "tbd"), ab_, gr_, od_, rng4)
+            for what, detail in tb4[:2]:
+                ctx.violation("correspondence: " + what, {"stream": "triebuild4", "arpa_text": ab_.decode("utf-8", "replace")[:4000], "detail": detail}, no_input=True)
+                problems.append("triebuild4 correspondence broken: " + what)
+            if len(ctx.violations) >= 6:
+                break
     finally:
         shutil.rmtree(d, ignore_errors=True)
         try:
